@@ -1417,12 +1417,95 @@ func (ge *guardEnv) guardedLocalX(f *ssa.Function, target ssa.Instruction, g Gua
 	if ok || len(g.Split) == 0 {
 		return ok, path
 	}
+	// The parts are found at different places of the function and are combined by what they *say* (the
+	// renderings of their operands). That is only sound for operands that denote the same value at both
+	// places: a field that the function (or something it calls) assigns in between may be read before the
+	// assignment by one part and after it by the other (`old := x.sum; x.add(v); if old < q && x.sum >= q`).
+	for _, ea := range condEdges(f) {
+		if ea.A.Kind != "cmp" {
+			continue
+		}
+		for _, part := range g.Split {
+			if part.Match(ge.w, f, ea.A) && !(stableOperand(f, ea.A.X) && stableOperand(f, ea.A.Y)) {
+				return false, path
+			}
+		}
+	}
 	for _, part := range g.Split {
 		if okp, _ := ge.guardedLocalX1(f, target, part, depth, extra); !okp {
 			return false, path
 		}
 	}
 	return true, nil
+}
+
+// stableOperand: every field read in v is of a field that neither f nor an in-module function f calls (two
+// levels) assigns.
+func stableOperand(f *ssa.Function, v ssa.Value) bool {
+	ok := true
+	var walk func(v ssa.Value, d int)
+	walk = func(v ssa.Value, d int) {
+		if d > 8 || !ok {
+			return
+		}
+		switch x := stripConv(v).(type) {
+		case *ssa.BinOp:
+			walk(x.X, d+1)
+			walk(x.Y, d+1)
+		case *ssa.UnOp:
+			if x.Op == token.MUL {
+				if fa, isFA := x.X.(*ssa.FieldAddr); isFA {
+					if fieldAssignedIn(f, fa, 2, map[*ssa.Function]bool{}) {
+						ok = false
+						return
+					}
+					walk(fa.X, d+1)
+					return
+				}
+			}
+			walk(x.X, d+1)
+		case *ssa.Phi:
+			for _, e := range x.Edges {
+				walk(e, d+1)
+			}
+		case *ssa.Call:
+			for _, a := range x.Call.Args {
+				walk(a, d+1)
+			}
+		}
+	}
+	walk(v, 0)
+	return ok
+}
+
+func fieldAssignedIn(f *ssa.Function, fa *ssa.FieldAddr, depth int, seen map[*ssa.Function]bool) bool {
+	if f == nil || f.Blocks == nil || seen[f] {
+		return false
+	}
+	seen[f] = true
+	for _, b := range f.Blocks {
+		for _, in := range b.Instrs {
+			switch x := in.(type) {
+			case *ssa.Store:
+				if fb, ok := x.Addr.(*ssa.FieldAddr); ok && fb.Field == fa.Field && types.Identical(fb.X.Type(), fa.X.Type()) {
+					// the initialisation of a struct that is being built does not count
+					if _, fresh := fb.X.(*ssa.Alloc); fresh && fb.X != fa.X {
+						continue
+					}
+					return true
+				}
+			case ssa.CallInstruction:
+				if depth > 0 {
+					if h := staticCallee(x); h != nil && strings.HasPrefix(pkgPathOf(h), modPath) {
+						if fieldAssignedIn(h, fa, depth-1, seen) {
+							return true
+						}
+					}
+				}
+			}
+		}
+	}
+	return false
 }
 
 func (ge *guardEnv) guardedLocalX1(f *ssa.Function, target ssa.Instruction, g Guard, depth int, extra map[Edge]bool) (bool, []*ssa.BasicBlock) {
